@@ -66,15 +66,43 @@ fn main() {
     quiet_panics();
     let secs: u64 = arg_or("--deadline", "20").parse().unwrap();
     let mut out = NdjsonWriter::create(&arg_req("--out"));
-    let mut hung = 0;
+    let mut hung: std::collections::HashMap<String, usize> = Default::default();
     for (ci, case) in read_ndjson(&arg_req("--in")).iter().enumerate() {
         let kind = case["kind"].as_str().unwrap().to_string();
+        // a change that makes one algorithm loop forever hangs on many inputs: a handful of witnesses per kind is enough
+        // (every hung call keeps a core busy until the process exits)
+        if hung.get(&kind).copied().unwrap_or(0) >= 3 {
+            out.write(&json!({"c": ci + 1, "kind": kind, "status": "skipped"}));
+            continue;
+        }
         let res: Result<Value, String> = match kind.as_str() {
             "lkh" => {
                 let (m, nbs, path) = (mat(&case["m"]), seqs0(&case["nbs"]), seq0(&case["path"]));
                 deadline(secs, move || {
                     let outs = lkh_optimize(Adj { m, nbs }, path);
                     json!({ "outs": outs.iter().map(|p| plus1(p)).collect::<Vec<_>>() })
+                })
+            }
+            "lkhgeo" => {
+                // Euclidean (irrational) costs between integer grid points: float rounding is part of the input space
+                let pts: Vec<(f64, f64)> = case["pts"].as_array().unwrap().iter().map(|p| (p[0].as_f64().unwrap(), p[1].as_f64().unwrap())).collect();
+                let n = pts.len();
+                let m: Vec<Vec<f64>> = (0..n).map(|i| (0..n).map(|j| ((pts[i].0 - pts[j].0).powi(2) + (pts[i].1 - pts[j].1).powi(2)).sqrt()).collect()).collect();
+                let nbs: Vec<Vec<usize>> = (0..n)
+                    .map(|i| {
+                        let mut v: Vec<usize> = (0..n).filter(|&j| j != i).collect();
+                        v.sort_by(|&a, &b| m[i][a].total_cmp(&m[i][b]));
+                        v
+                    })
+                    .collect();
+                let path = seq0(&case["path"]);
+                deadline(secs, move || {
+                    let closed = |p: &[usize]| -> f64 { (0..p.len()).map(|i| m[p[i]][p[(i + 1) % p.len()]]).sum::<f64>() };
+                    let cost_in = closed(&path);
+                    let outs = lkh_optimize(Adj { m: m.clone(), nbs }, path);
+                    json!({ "outs": outs.iter().map(|p| plus1(p)).collect::<Vec<_>>(),
+                            "costInU": (cost_in * 1e6).round() as i64,
+                            "costOutsU": outs.iter().map(|p| (closed(p) * 1e6).round() as i64).collect::<Vec<_>>() })
                 })
             }
             "db" => {
@@ -118,7 +146,7 @@ fn main() {
             }
             Err(e) => {
                 if e == "timeout" {
-                    hung += 1;
+                    *hung.entry(kind.clone()).or_default() += 1;
                 }
                 json!({"status": if e == "timeout" { "timeout" } else { "panic" }, "error": e})
             }
@@ -127,10 +155,6 @@ fn main() {
         rec["c"] = json!(ci + 1);
         rec["kind"] = json!(kind);
         out.write(&rec);
-        // a change that makes the search loop forever hangs on many inputs: a handful of witnesses is enough
-        if hung >= 6 {
-            break;
-        }
     }
     out.finish();
     // hung worker threads (if any) must not keep the process alive
